@@ -269,4 +269,8 @@ theorem sim_all {W : Nat} {bs pad : List Nat} (ctx : Ctx W bs pad) (hnum : Numbe
     exact ⟨value_step ctx hnum fuel ih.2.1 ih.2.2, elems_step ctx hnum fuel ih.1 ih.2.1,
       members_step ctx hnum fuel ih.1 ih.2.2⟩
 
+/-- the name used in the design notes for `sim_all` -/
+theorem machine_eq_descent {W : Nat} {bs pad : List Nat} (ctx : Ctx W bs pad) (hnum : NumberCorrectOn bs) (fuel : Nat) :
+    ValueSim W bs pad fuel ∧ ElemsSim W bs pad fuel ∧ MembersSim W bs pad fuel := sim_all ctx hnum fuel
+
 end Sonic.Proofs.Parse
